@@ -321,8 +321,8 @@ func rtNewEnv(r *rtRule) (*rtEnv, error) {
 func (e *rtEnv) keyValues(v int) []interface{} {
 	if e.isDate {
 		out := []interface{}{rtDateFull(v)}
-		if v%10 == 0 {
-			out = append(out, rtDateShort(v))
+		if alt := rtDateAlt(v); alt != out[0] {
+			out = append(out, alt)
 		}
 		return out
 	}
@@ -335,8 +335,19 @@ func rtDateShort(k int) string {
 }
 
 func rtDateFull(k int) string {
-	tod := map[int]string{0: "00:00:00", 5: "12:00:00", 9: "23:59:59"}[k%10]
+	tod := map[int]string{0: "00:00:00", 1: "00:00:00.5", 5: "12:00:00", 8: "23:59:58.999999", 9: "23:59:59"}[k%10]
 	return rtDateShort(k) + " " + tod
+}
+
+// the other accepted spelling of the same instant: date only for midnight, padded fraction for fractional seconds
+func rtDateAlt(k int) string {
+	switch k % 10 {
+	case 0:
+		return rtDateShort(k)
+	case 1:
+		return rtDateShort(k) + " 00:00:00.500000"
+	}
+	return rtDateFull(k)
 }
 
 func rtSameInts(a, b []int) bool {
@@ -371,8 +382,8 @@ func rtMinus(a, b []int) []int {
 func (e *rtEnv) lit(v int, w string, quoted bool, short bool) string {
 	if e.isDate {
 		s := "'" + rtDateFull(v) + "'"
-		if short && v%10 == 0 {
-			s = "'" + rtDateShort(v) + "'"
+		if short {
+			s = "'" + rtDateAlt(v) + "'"
 		}
 		if w == "expr" {
 			return "TIMESTAMP(" + s + ")"
